@@ -230,16 +230,16 @@ def check_cursor(case, op, cond, dbg, exp_ptr, log, duptags):
         return False
     ctx.count("frame_calls")
     if fr is not dbg.sequence[dbg.ptr] or fr2 is not dbg.sequence[dbg.ptr]:
-        case.viol("frame", "frame", cond + ",not-frame-at-ptr", f"frame()/summary() do not return sequence[{dbg.ptr}]")
+        case.viol("frame", "frame", "not-frame-at-ptr", f"after {op} ({cond}): frame()/summary() do not return sequence[{dbg.ptr}]")
         ok = False
     if fin is not dbg.final_retval:
-        case.viol("frame", "summary.final_retval", cond, "summary()[0] is not final_retval")
+        case.viol("frame", "summary.final_retval", "not-final-retval", f"after {op} ({cond}): summary()[0] is not final_retval")
         ok = False
     exp_tag = log[dbg.ptr]["tag"] if dbg.ptr < len(log) else None
     if exp_tag not in duptags:
         ctx.count("frame_tag_checked")
         if t != exp_tag or t2 != exp_tag:
-            case.viol("frame", "tag", cond + (",untagged-frame" if exp_tag is None else ",tagged-frame"), f"frame() at ptr {dbg.ptr} reports tag {t!r}/{t2!r}, the record point's tag is {exp_tag!r}")
+            case.viol("frame", "tag", "untagged-frame" if exp_tag is None else "tagged-frame", f"after {op} ({cond}): frame() at ptr {dbg.ptr} reports tag {t!r}/{t2!r}, the record point's tag is {exp_tag!r}")
             ok = False
     return ok
 
@@ -455,7 +455,7 @@ def run_case(ctx, ci, arm):
                 ctx.count("skipped_fragile_remix")
                 continue
             seqrel = "first" if not overrides else ("after-remix-at-earlier-frame" if max(overrides) < k else ("after-remix-at-same-frame" if max(overrides) == k else "after-remix-at-later-frame"))
-            cond = f"at-{pos},{seqrel}"
+            cond = f"at-{pos}"  # the position class is the mechanism; seqrel goes into the witness
             # python scalars stay python scalars half of the time (weakly typed constants)
             act_args = dbg.sequence[k].args
             jnew = []
@@ -465,7 +465,7 @@ def run_case(ctx, ci, arm):
                     ctx.count("remix_python_scalar_arg")
                 else:
                     jnew.append(G.to_jax_args(a_new))
-            case.history.append(f"remix@{k}[{pos}]({R.to_jsonable(new_args)})")
+            case.history.append(f"remix@{k}[{pos},{seqrel}]({R.to_jsonable(new_args)})")
             old_frames = list(dbg.sequence)
             old_jp = dict(dbg.jump_points)
             try:
@@ -487,7 +487,7 @@ def run_case(ctx, ci, arm):
             ctx.count("remix_at_" + pos.replace("-", "_"))
             if overrides:
                 ctx.count("remix_after_remix")
-            case.ev("remix", cond)
+            case.ev("remix", cond + "," + seqrel)
             fatal = False
             if len(new.sequence) != n:
                 case.viol("remix", "frame-count", cond, f"{len(new.sequence)} frames after remix at {k}, {n} before")
